@@ -61,6 +61,13 @@ theorem get_node_by_labels_count {c : Dag} (h : DagInv c) (labels : List String)
     (c.getNodeByLabels labels).length = (opsOf c).countP (fun op => labels.all (fun l => op.indexKeys.contains l)) :=
   length_getNodeByLabels_ops h labels hin hout
 
+/-- **`get_node_exclude_labels(labels)` = filter by predicate**: on every circuit satisfying DagInv the returned list has no
+    duplicates and contains exactly the nodes none of whose keys is one of the labels -/
+theorem get_node_exclude_labels_is_filter {c : Dag} (h : DagInv c) (labels : List String) :
+    (c.getNodeExcludeLabels labels).Nodup ∧
+    ∀ n, n ∈ c.getNodeExcludeLabels labels ↔ n ∈ c.nodeIds ∧ ∀ l ∈ labels, l ∉ c.keysAt n :=
+  ⟨(getNodeExcludeLabels_spec h labels (.op 0)).2, fun n => (getNodeExcludeLabels_spec h labels n).1⟩
+
 /-! ## 2. counting metrics -/
 
 /-- `CircuitEmitterCount` = the number of emitter input nodes of the graph -/
